@@ -346,6 +346,7 @@ func checkC12(c *Ctx) {
 
 func checkC15(c *Ctx) {
 	p := c.P
+	checkC15PKPlaceholder(c)
 	// the ORDER BY a finisher adds (primary key asc/desc, batch order) lives in a merged clause: merging must not write into
 	// the backing array of the chain it was derived from (same rule as C06.merge-alias)
 	checkC06MergeAlias(c, c.Rule("C15.clause-merge", "MergeClause never appends onto / stores into a slice shared with the chain the finisher was derived from (ORDER BY, LIMIT, WHERE added by First/Last/FindInBatches stay per chain)", 16))
